@@ -397,6 +397,19 @@ pub fn run(ctx: &mut Ctx) {
         }
         ctx.require("backlog-then-drip-cases", 24);
     }
+    // ---- a backlog of hundreds of small frames in one push, pulled back to back ----
+    {
+        let mut rng = ctx.rng("many-frames-backlog", 0);
+        for k in 0..ctx.n(16, 160) {
+            let nf = *rng.pick(&[255usize, 256, 257, 300, 512, 1000, 4096]);
+            let frames: Vec<usize> = (0..nf).map(|_| rng.usize(6)).collect();
+            let total: usize = frames.iter().map(|n| n + 2).sum();
+            let chunks = if k % 2 == 0 { vec![total] } else { vec![total / 2, total - total / 2] };
+            let c = Case { frames, chunks, pulls: vec![], salt: rng.byte(), style: 0 };
+            check_case(ctx, &c);
+            ctx.count("many-frames-backlog-cases");
+        }
+    }
     // ---- one connection that lives long: more than 4 GiB through a single buffer (one shard per
     //      build; maximum-size frames, pulled as they complete) ----
     if ctx.shard == 0 && !cfg!(miri) {
